@@ -1,6 +1,8 @@
 import Qhttp.Model.BasicAuth
 import Qhttp.Model.Http
 import Qhttp.Props.C01
+import Qhttp.Lemmas.C09Auth
+import Qhttp.Lemmas.Base64
 /-
   C09 — basic authentication admits exactly the registered credentials.
 -/
@@ -50,5 +52,356 @@ def holds (env : Env) (sc : AuthScn) (obs : List Obs) : Bool :=
          Http.valuesOf Sock.CONTENT_LENGTH m.headers == [natDigits m.body.length]
        | none => false) &&
       obs.any Obs.isTc
+
+end Qhttp.C09
+
+/-! ## Theorems (proof agent proofC09) -/
+namespace Qhttp.C09
+open Qhttp BasicAuth
+
+theorem SP_singleton : ([SP] : Bytes) = [32] := rfl
+theorem COLON_ne_nil : ([COLON] : Bytes) ≠ [] := by simp
+
+/-- **the middleware admits exactly what the property says**: `BasicAuthMiddleware::process`'s
+    way of taking the header apart (`split(' ')`, two parts, `Parser::split(":", 1)`) and the
+    property's reading (cut at the first space, no further space, cut at the first colon) agree
+    on every table and every header value -/
+theorem verdict_eq_spec (table : List (Bytes × Bytes)) (v : Bytes) :
+    BasicAuth.verdict table v = C09.specAdmit table v := by
+  unfold verdict specAdmit
+  rw [SP_singleton]
+  rcases splitChar_cases 32 v with ⟨hb, hs⟩ | ⟨a, r, hb, hm, hs⟩ | ⟨a, r, x, y, l, hb, hm, hs⟩
+  · rw [hs, hb]
+  · rw [hs, hb]
+    simp only
+    rw [show containsByte SP r = false from containsByte_eq_false_iff.2 hm, split_one_eq COLON_ne_nil]
+    cases breakOn [COLON] (fromBase64 r) <;> simp
+  · rw [hs, hb]
+    simp only
+    rw [show containsByte SP r = true from containsByte_iff.2 hm]
+    simp
+
+/-- the verdict for a header of the form `<scheme> SP <token>` without further spaces: decided by
+    the first colon of the decoded token and the exact table lookup -/
+theorem verdict_shape (table : List (Bytes × Bytes)) {s tok : Bytes} (hs : SP ∉ s) (ht : SP ∉ tok) :
+    verdict table (s ++ [SP] ++ tok) =
+      (lower s == BASIC &&
+        match breakOn [COLON] (fromBase64 tok) with
+        | some (u, p) => lookup table u == some p
+        | none => false) := by
+  rw [verdict_eq_spec]
+  unfold specAdmit
+  rw [breakOn_singleton tok hs]
+  simp only
+  rw [show containsByte SP tok = false from containsByte_eq_false_iff.2 ht]
+  simp
+
+/-- … and when the decoded token is `u:q` with no colon in `u`: admitted iff `u` is registered
+    with exactly `q` -/
+theorem verdict_payload (table : List (Bytes × Bytes)) {s tok u q : Bytes} (hs : SP ∉ s)
+    (hb : lower s = BASIC) (ht : SP ∉ tok) (hd : fromBase64 tok = u ++ [COLON] ++ q) (hu : COLON ∉ u) :
+    verdict table (s ++ [SP] ++ tok) = (lookup table u == some q) := by
+  rw [verdict_shape table hs ht, hd, breakOn_singleton q hu, hb]
+  simp
+
+/-- **admitted iff**: the header is `scheme SP token`, the scheme is `basic` in any letter case,
+    there is no other space, the token decodes (Qt's lenient decoder) to `u:p` cut at the FIRST
+    colon, and the table maps exactly `u` to exactly `p` -/
+theorem admit_iff (table : List (Bytes × Bytes)) (v : Bytes) :
+    verdict table v = true ↔
+      ∃ s tok u p, v = s ++ [SP] ++ tok ∧ lower s = BASIC ∧ SP ∉ s ∧ SP ∉ tok ∧
+        fromBase64 tok = u ++ [COLON] ++ p ∧ COLON ∉ u ∧ lookup table u = some p := by
+  constructor
+  · intro h
+    rw [verdict_eq_spec] at h
+    unfold specAdmit at h
+    cases hb : breakOn [SP] v with
+    | none => rw [hb] at h; cases h
+    | some q =>
+      obtain ⟨s, tok⟩ := q
+      rw [hb] at h
+      simp only [Bool.and_eq_true, Bool.not_eq_true', beq_iff_eq] at h
+      obtain ⟨⟨h1, h2⟩, h3⟩ := h
+      cases hc : breakOn [COLON] (fromBase64 tok) with
+      | none => rw [hc] at h3; cases h3
+      | some q =>
+        obtain ⟨u, p⟩ := q
+        rw [hc] at h3
+        exact ⟨s, tok, u, p, breakOn_some hb, h1, breakOn_singleton_not_mem hb,
+          containsByte_eq_false_iff.1 h2, breakOn_some hc, breakOn_singleton_not_mem hc,
+          by simpa using h3⟩
+  · rintro ⟨s, tok, u, p, rfl, h1, h2, h3, h4, h5, h6⟩
+    rw [verdict_payload table h2 h1 h3 h4 h5, h6]
+    simp
+
+/-! ### valid credentials are always admissible -/
+
+theorem BASIC_SP_eq : lit ['B','a','s','i','c',' '] = lit ['B','a','s','i','c'] ++ [SP] := by decide
+
+/-- the standard encoding of `user:password` after `Basic ` is admitted whenever that pair is
+    what the table holds for the user (user names cannot contain ':' — RFC 7617) -/
+theorem valid_admitted (table : List (Bytes × Bytes)) {u p : Bytes} (hu : COLON ∉ u)
+    (hl : lookup table u = some p) :
+    verdict table (lit ['B','a','s','i','c',' '] ++ b64encode (u ++ [COLON] ++ p)) = true := by
+  rw [BASIC_SP_eq, verdict_payload table (s := lit ['B','a','s','i','c']) (u := u) (q := p)
+    (by decide) (by decide) (SP_not_mem_b64encode _) (b64_roundtrip _) hu, hl]
+  simp
+
+/-- any letter case of the scheme -/
+theorem valid_admitted_anycase (table : List (Bytes × Bytes)) {s u p : Bytes} (hs : lower s = BASIC)
+    (hu : COLON ∉ u) (hl : lookup table u = some p) :
+    verdict table (s ++ [SP] ++ b64encode (u ++ [COLON] ++ p)) = true := by
+  have hsp : SP ∉ s := by
+    intro hm
+    have : lower8 SP ∈ lower s := List.mem_map.2 ⟨SP, hm, rfl⟩
+    rw [hs] at this
+    revert this; decide
+  rw [verdict_payload table hsp hs (SP_not_mem_b64encode _) (b64_roundtrip _) hu, hl]
+  simp
+
+/-! ### near misses are refused (each for all inputs, then a concrete instance) -/
+
+/-- a password different from the registered one is refused, whatever the difference -/
+theorem wrong_password_refused (table : List (Bytes × Bytes)) {s tok u p q : Bytes} (hs : SP ∉ s)
+    (ht : SP ∉ tok) (hd : fromBase64 tok = u ++ [COLON] ++ q) (hu : COLON ∉ u)
+    (hl : lookup table u = some p) (hne : q ≠ p) :
+    verdict table (s ++ [SP] ++ tok) = false := by
+  rw [verdict_shape table hs ht, hd, breakOn_singleton q hu]
+  simp only
+  rw [hl]
+  have : (some p == some q) = false := by simpa using fun h : p = q => hne h.symm
+  simp [this]
+
+/-- a proper prefix of the password is refused -/
+theorem prefix_password_refused (table : List (Bytes × Bytes)) {u p : Bytes} (k : Nat)
+    (hk : k < p.length) (hu : COLON ∉ u) (hl : lookup table u = some p) :
+    verdict table (lit ['B','a','s','i','c',' '] ++ b64encode (u ++ [COLON] ++ p.take k)) = false := by
+  rw [BASIC_SP_eq]
+  refine wrong_password_refused table (by decide) (SP_not_mem_b64encode _) (b64_roundtrip _) hu hl ?_
+  intro h
+  have := congrArg List.length h
+  rw [List.length_take] at this
+  omega
+
+/-- a password that is right only after case folding is refused -/
+theorem case_changed_password_refused (table : List (Bytes × Bytes)) {u p q : Bytes}
+    (hq : q ≠ p) (_hfold : lower q = lower p) (hu : COLON ∉ u) (hl : lookup table u = some p) :
+    verdict table (lit ['B','a','s','i','c',' '] ++ b64encode (u ++ [COLON] ++ q)) = false := by
+  rw [BASIC_SP_eq]
+  exact wrong_password_refused table (by decide) (SP_not_mem_b64encode _) (b64_roundtrip _) hu hl hq
+
+/-- the empty password is refused unless it is the registered one -/
+theorem empty_password_refused (table : List (Bytes × Bytes)) {u p : Bytes} (hp : p ≠ [])
+    (hu : COLON ∉ u) (hl : lookup table u = some p) :
+    verdict table (lit ['B','a','s','i','c',' '] ++ b64encode (u ++ [COLON])) = false := by
+  rw [BASIC_SP_eq]
+  refine wrong_password_refused table (q := []) (by decide) (SP_not_mem_b64encode _) ?_ hu hl
+    (fun h => hp h.symm)
+  rw [List.append_nil]; exact b64_roundtrip _
+
+/-- another registered user's password is refused -/
+theorem other_users_password_refused (table : List (Bytes × Bytes)) {u p u' p' : Bytes}
+    (hl : lookup table u = some p) (_hl' : lookup table u' = some p') (hne : p' ≠ p) (hu : COLON ∉ u) :
+    verdict table (lit ['B','a','s','i','c',' '] ++ b64encode (u ++ [COLON] ++ p')) = false := by
+  rw [BASIC_SP_eq]
+  exact wrong_password_refused table (by decide) (SP_not_mem_b64encode _) (b64_roundtrip _) hu hl hne
+
+/-- an unregistered user is refused with any password -/
+theorem unknown_user_refused (table : List (Bytes × Bytes)) {s tok u q : Bytes} (hs : SP ∉ s)
+    (ht : SP ∉ tok) (hd : fromBase64 tok = u ++ [COLON] ++ q) (hu : COLON ∉ u)
+    (hl : lookup table u = none) :
+    verdict table (s ++ [SP] ++ tok) = false := by
+  rw [verdict_shape table hs ht, hd, breakOn_singleton q hu]
+  simp only
+  rw [hl]
+  simp
+
+/-- an admitted header value contains exactly one space -/
+theorem admitted_one_space {table : List (Bytes × Bytes)} {v : Bytes} (h : verdict table v = true) :
+    v.count SP = 1 := by
+  obtain ⟨s, tok, u, p, rfl, _, hs, ht, _⟩ := (admit_iff _ _).1 h
+  simp [List.count_append, List.count_eq_zero.2 hs, List.count_eq_zero.2 ht]
+
+/-- two (or more) spaces: refused, whatever surrounds them -/
+theorem two_spaces_refused (table : List (Bytes × Bytes)) (a b c : Bytes) :
+    verdict table (a ++ [SP] ++ b ++ [SP] ++ c) = false := by
+  cases h : verdict table (a ++ [SP] ++ b ++ [SP] ++ c) with
+  | false => rfl
+  | true =>
+    have := admitted_one_space h
+    simp only [List.count_append, List.count_singleton_self] at this
+    omega
+
+/-- no space at all (in particular the empty value, i.e. no Authorization header): refused -/
+theorem no_space_refused (table : List (Bytes × Bytes)) {v : Bytes} (h : SP ∉ v) :
+    verdict table v = false := by
+  cases hv : verdict table v with
+  | false => rfl
+  | true =>
+    have := admitted_one_space hv
+    rw [List.count_eq_zero.2 h] at this
+    cases this
+
+theorem missing_header_refused (table : List (Bytes × Bytes)) : verdict table [] = false := rfl
+
+/-- a payload without a colon is refused -/
+theorem missing_colon_refused (table : List (Bytes × Bytes)) (s tok : Bytes)
+    (hc : COLON ∉ fromBase64 tok) : verdict table (s ++ [SP] ++ tok) = false := by
+  by_cases hs : SP ∈ s
+  · obtain ⟨a, b, rfl⟩ := List.mem_iff_append.1 hs
+    have := two_spaces_refused table a b tok
+    simpa [List.append_assoc] using this
+  · by_cases ht : SP ∈ tok
+    · obtain ⟨a, b, rfl⟩ := List.mem_iff_append.1 ht
+      have := two_spaces_refused table s a b
+      simpa [List.append_assoc] using this
+    · rw [verdict_shape table hs ht, breakOn_singleton_eq_none_iff.2 hc]
+      simp
+
+/-- a scheme other than `basic` (in any case) is refused -/
+theorem other_scheme_refused (table : List (Bytes × Bytes)) (s tok : Bytes) (hs : lower s ≠ BASIC) :
+    verdict table (s ++ [SP] ++ tok) = false := by
+  by_cases hsp : SP ∈ s
+  · obtain ⟨a, b, rfl⟩ := List.mem_iff_append.1 hsp
+    have := two_spaces_refused table a b tok
+    simpa [List.append_assoc] using this
+  · by_cases ht : SP ∈ tok
+    · obtain ⟨a, b, rfl⟩ := List.mem_iff_append.1 ht
+      have := two_spaces_refused table s a b
+      simpa [List.append_assoc] using this
+    · rw [verdict_shape table hsp ht]
+      have : (lower s == BASIC) = false := by simpa using hs
+      rw [this]; rfl
+
+/-- `lookup` is whole-string, case-sensitive byte equality: whatever it returns for `u` is a pair
+    registered for exactly `u` -/
+theorem lookup_exact {table : List (Bytes × Bytes)} {u p : Bytes} (h : lookup table u = some p) :
+    (u, p) ∈ table := lookup_some_mem h
+
+/-- admitted ⇒ the decoded pair is literally in the table -/
+theorem admitted_registered {table : List (Bytes × Bytes)} {v : Bytes} (h : verdict table v = true) :
+    ∃ s tok u p, v = s ++ [SP] ++ tok ∧ fromBase64 tok = u ++ [COLON] ++ p ∧ COLON ∉ u ∧
+      (u, p) ∈ table := by
+  obtain ⟨s, tok, u, p, h1, _, _, _, h2, h3, h4⟩ := (admit_iff _ _).1 h
+  exact ⟨s, tok, u, p, h1, h2, h3, lookup_some_mem h4⟩
+
+/-- nothing is admitted when nobody is registered -/
+theorem empty_table_refuses (v : Bytes) : verdict [] v = false := by
+  cases h : verdict [] v with
+  | false => rfl
+  | true =>
+    obtain ⟨_, _, _, _, _, _, _, hm⟩ := admitted_registered h
+    cases hm
+
+/-! ### the challenge -/
+
+/-- refusal: the middleware records `false`, sets exactly `WWW-Authenticate: Basic realm="<realm>"`
+    (replacing) and answers through `writeError(401)`; nothing else -/
+theorem challenge_shape_refused (table : List (Bytes × Bytes)) (realm : Bytes) (s : Sock)
+    (h : verdict table (HeaderMap.value AUTHORIZATION s.reqHeaders) = false) :
+    ops table realm s = [.note (.mw 0 false), .hdr WWW_AUTH (challenge realm) true, .err 401 none] := by
+  unfold ops; rw [h]; rfl
+
+/-- admission: the middleware makes no response-side call itself (`mw 0 true` is its return value);
+    what follows is the downstream handler (`pr`, 200 "ok", close) -/
+theorem challenge_shape_admitted (table : List (Bytes × Bytes)) (realm : Bytes) (s : Sock)
+    (h : verdict table (HeaderMap.value AUTHORIZATION s.reqHeaders) = true) :
+    ops table realm s = [.note (.mw 0 true), .note (.pr 0 []), .write (lit ['o','k']), .close] := by
+  unfold ops; rw [h]; rfl
+
+/-- both paths in one statement, with the challenge spelled out -/
+theorem challenge_shape (table : List (Bytes × Bytes)) (realm : Bytes) (s : Sock) :
+    (verdict table (HeaderMap.value AUTHORIZATION s.reqHeaders) = false →
+       ops table realm s =
+         [.note (.mw 0 false),
+          .hdr (lit ['W','W','W','-','A','u','t','h','e','n','t','i','c','a','t','e'])
+               (lit ['B','a','s','i','c',' ','r','e','a','l','m','=','"'] ++ realm ++ lit ['"']) true,
+          .err 401 none]) ∧
+    (verdict table (HeaderMap.value AUTHORIZATION s.reqHeaders) = true →
+       (∀ op ∈ ops table realm s, (∀ n v r, op ≠ .hdr n v r) ∧ (∀ c r, op ≠ .err c r) ∧
+          (∀ c r, op ≠ .status c r)) ∧
+       (ops table realm s).head? = some (.note (.mw 0 true))) := by
+  refine ⟨fun h => challenge_shape_refused table realm s h, fun h => ?_⟩
+  rw [challenge_shape_admitted table realm s h]
+  refine ⟨?_, rfl⟩
+  intro op hop
+  simp only [List.mem_cons, List.not_mem_nil, or_false] at hop
+  rcases hop with rfl | rfl | rfl | rfl <;> simp
+
+/-- the realm can be read back from the challenge -/
+theorem challenge_injective {r1 r2 : Bytes} (h : challenge r1 = challenge r2) : r1 = r2 := by
+  unfold challenge at h
+  exact List.append_cancel_left (List.append_cancel_right h)
+
+/-! ### concrete instances (all by `decide`) -/
+
+/-- users and passwords that are prefixes / case variants of each other, an empty password,
+    a password containing ':' and a re-registered user (`bob`: the later entry wins) -/
+def exTable : List (Bytes × Bytes) :=
+  [ (lit ['u','s','e','r'], lit ['p','a','s','s']),
+    (lit ['U','s','e','r'], lit ['P','a','s','s']),
+    (lit ['u','s','e'],     lit ['p','a']),
+    (lit ['n','o','b','o','d','y'], []),
+    (lit ['b','o','b'], lit ['o','l','d']),
+    (lit ['c','o','l'], lit ['a',':','b']),
+    (lit ['b','o','b'], lit ['n','e','w']) ]
+
+def hdr (scheme : List Char) (cred : List Char) : Bytes := lit scheme ++ [SP] ++ b64encode (lit cred)
+
+-- admitted
+example : verdict exTable (lit ['B','a','s','i','c',' ','d','X','N','l','c','j','p','w','Y','X','N','z']) = true := by decide
+example : verdict exTable (hdr ['B','a','s','i','c'] ['u','s','e','r',':','p','a','s','s']) = true := by decide
+example : verdict exTable (hdr ['b','a','s','i','c'] ['u','s','e','r',':','p','a','s','s']) = true := by decide
+example : verdict exTable (hdr ['B','A','S','I','C'] ['U','s','e','r',':','P','a','s','s']) = true := by decide
+example : verdict exTable (hdr ['B','a','s','i','c'] ['u','s','e',':','p','a']) = true := by decide
+example : verdict exTable (hdr ['B','a','s','i','c'] ['n','o','b','o','d','y',':']) = true := by decide
+example : verdict exTable (hdr ['B','a','s','i','c'] ['c','o','l',':','a',':','b']) = true := by decide
+example : verdict exTable (hdr ['B','a','s','i','c'] ['b','o','b',':','n','e','w']) = true := by decide
+-- refused
+example : verdict exTable (hdr ['B','a','s','i','c'] ['b','o','b',':','o','l','d']) = false := by decide
+example : verdict exTable (hdr ['B','a','s','i','c'] ['u','s','e','r',':','p','a','s']) = false := by decide
+example : verdict exTable (hdr ['B','a','s','i','c'] ['u','s','e','r',':','p','a']) = false := by decide
+example : verdict exTable (hdr ['B','a','s','i','c'] ['u','s','e','r',':','P','a','s','s']) = false := by decide
+example : verdict exTable (hdr ['B','a','s','i','c'] ['u','s','e','r',':','P','A','S','S']) = false := by decide
+example : verdict exTable (hdr ['B','a','s','i','c'] ['u','s','e','r',':']) = false := by decide
+example : verdict exTable (hdr ['B','a','s','i','c'] ['u','s','e','r',':','p','a','s','s','x']) = false := by decide
+example : verdict exTable (hdr ['B','a','s','i','c'] ['U','S','E','R',':','p','a','s','s']) = false := by decide
+example : verdict exTable (hdr ['B','a','s','i','c'] ['u','s','e','r','p','a','s','s']) = false := by decide
+example : verdict exTable (hdr ['B','a','s','i','c'] ['u','s','e','r']) = false := by decide
+example : verdict exTable (hdr ['B','e','a','r','e','r'] ['u','s','e','r',':','p','a','s','s']) = false := by decide
+example : verdict exTable (hdr ['B','a','s','i','c','x'] ['u','s','e','r',':','p','a','s','s']) = false := by decide
+example : verdict exTable (lit ['B','a','s','i','c',' ',' ','d','X','N','l','c','j','p','w','Y','X','N','z']) = false := by decide
+example : verdict exTable (lit ['B','a','s','i','c',' ','d','X','N','l','c','j','p','w','Y','X','N','z',' ']) = false := by decide
+example : verdict exTable (lit [' ','B','a','s','i','c',' ','d','X','N','l','c','j','p','w','Y','X','N','z']) = false := by decide
+example : verdict exTable (lit ['B','a','s','i','c','\t','d','X','N','l','c','j','p','w','Y','X','N','z']) = false := by decide
+example : verdict exTable (lit ['B','a','s','i','c']) = false := by decide
+example : verdict exTable [] = false := by decide
+example : verdict exTable (lit ['d','X','N','l','c','j','p','w','Y','X','N','z']) = false := by decide
+example : verdict [] (lit ['B','a','s','i','c',' ','d','X','N','l','c','j','p','w','Y','X','N','z']) = false := by decide
+-- the lenient decoder skips junk inside the token: still exactly user:pass after decoding
+example : verdict exTable (lit ['B','a','s','i','c',' ','d','X','N','l','-','c','j','p','w','Y','X','N','z','=','=','=']) = true := by decide
+-- the spec agrees on each
+example : specAdmit exTable (lit ['B','a','s','i','c',' ','d','X','N','l','c','j','p','w','Y','X','N','z']) = true := by decide
+example : specAdmit exTable (lit ['B','a','s','i','c',' ',' ','d','X','N','l','c','j','p','w','Y','X','N','z']) = false := by decide
+-- lookup: exact bytes
+example : lookup exTable (lit ['u','s','e','r']) = some (lit ['p','a','s','s']) := by decide
+example : lookup exTable (lit ['U','s','e','r']) = some (lit ['P','a','s','s']) := by decide
+example : lookup exTable (lit ['U','S','E','R']) = none := by decide
+example : lookup exTable (lit ['u','s']) = none := by decide
+example : lookup exTable (lit ['u','s','e','r','s']) = none := by decide
+example : lookup exTable (lit ['b','o','b']) = some (lit ['n','e','w']) := by decide
+
+-- the general theorems' hypotheses are satisfiable (non-vacuity): instances on `exTable`
+example : verdict exTable (lit ['B','a','s','i','c',' '] ++ b64encode (lit ['u','s','e','r'] ++ [COLON] ++ lit ['p','a','s','s'])) = true :=
+  valid_admitted exTable (by decide) (by decide)
+example : verdict exTable (lit ['B','a','s','i','c',' '] ++ b64encode (lit ['u','s','e','r'] ++ [COLON] ++ (lit ['p','a','s','s']).take 3)) = false :=
+  prefix_password_refused exTable 3 (by decide) (by decide) (by decide)
+example : verdict exTable (lit ['B','a','s','i','c',' '] ++ b64encode (lit ['u','s','e','r'] ++ [COLON] ++ lit ['P','a','s','s'])) = false :=
+  case_changed_password_refused exTable (p := lit ['p','a','s','s']) (by decide) (by decide) (by decide) (by decide)
+example : verdict exTable (lit ['B','a','s','i','c',' '] ++ b64encode (lit ['u','s','e','r'] ++ [COLON])) = false :=
+  empty_password_refused exTable (p := lit ['p','a','s','s']) (by decide) (by decide) (by decide)
+example : verdict exTable (lit ['B','a','s','i','c',' '] ++ b64encode (lit ['u','s','e','r'] ++ [COLON] ++ lit ['P','a','s','s'])) = false :=
+  other_users_password_refused exTable (u' := lit ['U','s','e','r']) (p := lit ['p','a','s','s']) (by decide) (by decide) (by decide) (by decide)
+example : ∃ v, verdict exTable v = true := ⟨_, valid_admitted exTable (u := lit ['u','s','e']) (p := lit ['p','a']) (by decide) (by decide)⟩
 
 end Qhttp.C09
